@@ -39,7 +39,8 @@ func (c18) Info() core.Info {
 		Rule: "for each generated pair (previous state A, new state B) with 0/1/5/40/200 bindings of mixed value kinds: a reference worker process produces file(A) by a real AutoSave, auto-loads it in a fresh state, applies the inputs leading to B and auto-saves, " +
 			"reporting the ordered list of crash points the save passed (before/after CreateTemp, after each written binding, after the last write, before/after rename). Then EVERY crash point of that list is enumerated: a fresh worker repeats the history and SIGKILLs itself at that point; " +
 			"afterwards ./.gr must be byte-identical to file(A) or to file(B). Second family: RLIMIT_FSIZE at a stride of byte offsets 0..len(file(B)) with SIGXFSZ ignored (the write fails with EFBIG at that offset, as on a full disk): AutoSave must return an error and ./.gr must equal file(A). " +
-			"Third: nothing changed -> no save (inode and mtime of ./.gr unchanged, no temp file). distinct = distinct (size class of A, size class of B, crash point name / fault kind); non-trivial = a crash landed between temp-file creation and rename or a write was refused mid-file.",
+			"Third family: the temporary file is unlinked under the running save at the points between its creation and the rename (a tmp reaper / second instance), so the final rename fails: AutoSave must return an error and ./.gr must equal file(A). " +
+			"After faults of every family a later healthy session saves a smaller state over what was left behind and ./.gr must be exactly that. Fourth: nothing changed -> no save (inode and mtime of ./.gr unchanged, no temp file). distinct = distinct (size class of A, size class of B, crash point name / fault kind); non-trivial = a crash landed between temp-file creation and rename or a write was refused mid-file.",
 		Real:        []string{"repl.AutoSave, repl.AutoLoad, eval.State.SaveGlobals/object.Environment.SaveGlobals, os.CreateTemp/os.Rename and the kernel's file system, repl.EvalOne", "process death by SIGKILL of a real worker process", "EFBIG from the kernel via RLIMIT_FSIZE"},
 		Stubbed:     []string{"power loss / fsync ordering (not modelled: page cache survives process death; the property speaks of process death)", "unwritable-directory fault skipped when running as root (permission bits do not bind root)"},
 		Assumptions: []string{"crash = process death, not power loss", "crash points are the hook H4 call sites plus one per written binding", "os.CreateTemp names are random and excluded from comparisons; leftover .grol*.tmp files are reported, not judged"},
@@ -131,7 +132,8 @@ type c18Report struct {
 }
 
 // c18Worker: worker c18 <dir> <historyfile> <mode> <n>
-// mode: ref | crash (n = ordinal of the crash point) | fsize (n = byte limit)
+// mode: ref | crash (n = ordinal of the crash point) | fsize (n = byte limit) | unlinktmp (n = ordinal of the point
+// at which the temporary file is unlinked) | recover
 func c18Worker(args []string) int {
 	dir, hf, mode := args[0], args[1], args[2]
 	n, _ := strconv.Atoi(args[3])
@@ -192,6 +194,14 @@ func c18Worker(args []string) int {
 		if mode == "crash" && ordinal == n {
 			_ = syscall.Kill(os.Getpid(), syscall.SIGKILL)
 			select {} // never reached
+		}
+		if mode == "unlinktmp" && ordinal == n {
+			// fault: something else (a tmp reaper, a second instance cleaning up) unlinks the temporary file while
+			// the save is in progress: the writes still succeed on the open descriptor, the final rename cannot
+			m, _ := filepath.Glob(".grol*.tmp")
+			for _, f := range m {
+				_ = os.Remove(f)
+			}
 		}
 		ordinal++
 	}
@@ -379,6 +389,36 @@ func (c18) Execute(h *core.History) *core.Outcome {
 			recoverCheck(d, "crash:"+pointClass(name))
 		}
 		os.RemoveAll(d)
+	}
+	// rename failures: the temporary file is unlinked under the save at each point between its creation and the rename
+	if changed && !st.Discarded {
+		for p, name := range ref.Points {
+			if name == "autosave:before-createtemp" || name == "autosave:after-rename" {
+				continue
+			}
+			if name == "save:binding" && p%4 != 1 {
+				continue
+			}
+			d := newDir()
+			rep, code, _, out := c18Child(d, hf, "unlinktmp", p)
+			st.Children++
+			if rep == nil {
+				fail("failed-save-keeps-previous", "worker-died", fmt.Sprintf("the worker whose temporary file was unlinked at point #%d %s died: exit %d: %s", p, name, code, trunc(tailStr(out, 400), 400)))
+				break
+			}
+			st.Fault("tempfile_unlinked_before_rename")
+			st.Nontrivial = true
+			got, exists := gr(d)
+			shape = append(shape, cls+":unlinktmp:"+pointClass(name))
+			if rep.ErrB == "" {
+				fail("failed-save-reports-error", "unlinktmp", fmt.Sprintf("temporary file unlinked at point #%d %s so the rename cannot succeed: AutoSave returned no error", p, name))
+			}
+			if exists != hadA || (exists && got != fileA) {
+				fail("failed-save-keeps-previous", "unlinktmp", fmt.Sprintf("rename failed (temporary file unlinked at point #%d %s, AutoSave error %q): ./.gr exists=%v (%d bytes), previous version existed=%v (%d bytes); starts %q", p, name, rep.ErrB, exists, len(got), hadA, len(fileA), trunc(got, 120)))
+			}
+			recoverCheck(d, "unlinktmp")
+			os.RemoveAll(d)
+		}
 	}
 	// write failures at a stride of byte offsets
 	if changed && !st.Discarded {
